@@ -307,6 +307,9 @@ func (e *Engine) guardedFunctions() []string {
 						}
 					}
 				}
+				if ci, ok := in.(ssa.CallInstruction); ok && strings.HasPrefix(calleeKeyOf(ci.Common()), "(*sync.RWMutex).") {
+					hit = true
+				}
 				if hit && !seen[fnKey(top)] {
 					seen[fnKey(top)] = true
 					keys = append(keys, fnKey(top))
